@@ -105,14 +105,17 @@ Qed.
 
 Lemma sem_operand_address c t addr k s :
   sem_operand c (ORel t) addr k = Some s ->
-  s = SRel (wrap16 t) \/ s = STarget (wrap16 t) \/ exists n, s = SNum n.
+  s = SRel (wrap16 t) \/ s = STarget (wrap16 t) \/ exists b, s = SNum (t mod 2 ^ b) /\ - 2 ^ b < t < 2 ^ b.
 Proof.
   destruct c; cbn [sem_operand sem_rm]; intros H; try discriminate.
   - inv H. auto.
   - inv H. auto.
   - destruct (_ && _ && _); inv H. auto.
   - destruct (_ && _ && _); inv H. auto.
-  - destruct (_ && _); inv H. eauto.
+  - right. right. exists bits. destruct neg_ok.
+    + destruct ((- 2 ^ bits <? t) && (t <? 2 ^ bits)) eqn:E; inv H. split; [reflexivity|lia].
+    + destruct ((0 <=? t) && (t <? 2 ^ bits)) eqn:E; inv H. split; [reflexivity|].
+      assert (0 <= 2 ^ bits) by (apply Z.pow_nonneg; lia). lia.
 Qed.
 
 Lemma sem_operand_address_def c t addr k s :
@@ -126,7 +129,7 @@ Theorem operand_hits_anywhere m ops addr ws rest i t :
   exists name pre ss post s,
     decode (ws ++ rest) addr = Some (name, pre ++ ss ++ post, List.length ws) /\
     List.length ss = List.length ops /\ nth_error ss i = Some s /\
-    (s = SRel (wrap16 t) \/ s = STarget (wrap16 t) \/ exists n, s = SNum n).
+    (s = SRel (wrap16 t) \/ s = STarget (wrap16 t) \/ exists b, s = SNum (t mod 2 ^ b) /\ - 2 ^ b < t < 2 ^ b).
 Proof.
   intros H Hpc Hn.
   destruct (encode_decode_struct _ _ _ _ rest H Hpc) as [name [pre [post [ks [ss [C [K [S D]]]]]]]].
